@@ -204,11 +204,18 @@ def validate_live(tabs):
     if REPO not in sys.path:
         sys.path.insert(0, REPO)
     problems = []
+    LIVE_PROBLEMS.clear()
     for prov in _providers():
         name = prov.__name__.split(".")[-1]
         if hasattr(prov, "validate_live") and name in tabs:
-            problems += prov.validate_live(tabs[name])
+            found = prov.validate_live(tabs[name])
+            problems += found
+            if found:
+                LIVE_PROBLEMS[prov.LEAN_FILE] = found
     return problems
+
+
+LIVE_PROBLEMS = {}
 
 
 if __name__ == "__main__":
